@@ -462,22 +462,28 @@ class Lane:
             self.aborted = True
             return self
 
-    def _run(self, ops=None):
+    def begin(self):
         _install_wrappers()
-        plan = self.ctx.plan
         self.build_manager()
+
+    def do_op(self, index, op):
+        kind = op["op"]
+        if kind == "deliver":
+            self.do_deliver(op, index)
+        elif kind == "scene_query":
+            self.do_scene(index)
+        elif kind == "restart":
+            self.do_restart(index)
+        elif kind == "analyze":
+            self.do_analyze(op, index)
+        else:
+            raise ValueError("unknown op %r" % (kind,))
+
+    def _run(self, ops=None):
+        plan = self.ctx.plan
+        self.begin()
         for index, op in enumerate(plan["ops"] if ops is None else ops):
-            kind = op["op"]
-            if kind == "deliver":
-                self.do_deliver(op, index)
-            elif kind == "scene_query":
-                self.do_scene(index)
-            elif kind == "restart":
-                self.do_restart(index)
-            elif kind == "analyze":
-                self.do_analyze(op, index)
-            else:
-                raise ValueError("unknown op %r" % (kind,))
+            self.do_op(index, op)
         if ops is None:
             for q in plan.get("lookups", []):
                 self.do_lookup(q["t"], q["tol"], q["interp"], None, pure=True)
